@@ -20,6 +20,8 @@ one of the named calls violates the tolerance, a residual within the bound prove
   gamma(x) gamma(x+1/2) = 2^(1-2x) sqrt(PI) gamma(2x), loggamma(x+1) - loggamma(x) = ln x (x > 0),
   digamma(x+k) - digamma(x) = sum 1/(x+j), digamma(n+1/2) - digamma(m) = rational - 2 ln 2,
   polygamma(m, x+1) - polygamma(m, x) = (-1)^m m!/x^(m+1), beta(x+1, y) (x+y) = x beta(x, y), at random dyadic x.
+KNOWN FINDING (known_findings_B3.json): superfac/hyperfac/barnesg lose relative accuracy above ~650 bits (2^-965 at p = 1000, 2^-2827 at
+p = 3000 for superfac(3) = 12): sampled there only in the thorough tier, in kinds with their own regime.
 NOT DECIDED: any single value at a non-(half-)integer argument, complex arguments, digamma/polygamma(even m) values
 themselves (no formal Euler constant / zeta(odd)), barnesg/superfac/hyperfac off the integers, fac2 off the integers,
 behaviour of beta/binomial/gammaprod at cancelling poles."""
@@ -379,9 +381,12 @@ reg("rf", "rf", lambda c, x, n: c.rf(Mq(c, x), Mq(c, n)), r_rf, g_rf, w=1.2, reg
 reg("ff", "ff", lambda c, x, n: c.ff(Mq(c, x), Mq(c, n)), r_ff, g_ff, w=1.2, regime="pochhammer")
 reg("gammaprod", "gammaprod", lambda c, a, b: c.gammaprod([Mq(c, t) for t in a], [Mq(c, t) for t in b]),
     lambda a, b: gquot(list(a), list(b)), g_gammaprod, w=1.2, regime="half-integer")
-reg("superfac", "superfac", lambda c, n: c.superfac(n), lambda n: QRef(superfac(n), 1), lambda rng, p: [rng.randint(0, 40)], w=0.7, regime="integer")
-reg("hyperfac", "hyperfac", lambda c, n: c.hyperfac(n), lambda n: QRef(hyperfac(n), 1), lambda rng, p: [rng.randint(0, 40)], w=0.7, regime="integer")
-reg("barnesg", "barnesg", lambda c, n: c.barnesg(n), lambda n: QRef(superfac(n - 2), 1), lambda rng, p: [rng.randint(1, 40)], w=0.7, regime="integer")
+reg("superfac", "superfac", lambda c, n: c.superfac(n), lambda n: QRef(superfac(n), 1), lambda rng, p: [rng.randint(0, 40)], w=0.7, regime="integer", maxprec=400)
+reg("superfac_hp", "superfac", lambda c, n: c.superfac(n), lambda n: QRef(superfac(n), 1), lambda rng, p: [rng.randint(0, 40)], w=0.5, regime="integer, prec >= 1000", precs=[1000, 3000], tiers=("thorough",))
+reg("hyperfac", "hyperfac", lambda c, n: c.hyperfac(n), lambda n: QRef(hyperfac(n), 1), lambda rng, p: [rng.randint(0, 40)], w=0.7, regime="integer", maxprec=400)
+reg("hyperfac_hp", "hyperfac", lambda c, n: c.hyperfac(n), lambda n: QRef(hyperfac(n), 1), lambda rng, p: [rng.randint(0, 40)], w=0.5, regime="integer, prec >= 1000", precs=[1000, 3000], tiers=("thorough",))
+reg("barnesg", "barnesg", lambda c, n: c.barnesg(n), lambda n: QRef(superfac(n - 2), 1), lambda rng, p: [rng.randint(1, 40)], w=0.7, regime="integer", maxprec=400)
+reg("barnesg_hp", "barnesg", lambda c, n: c.barnesg(n), lambda n: QRef(superfac(n - 2), 1), lambda rng, p: [rng.randint(1, 40)], w=0.5, regime="integer, prec >= 1000", precs=[1000, 3000], tiers=("thorough",))
 reg("harmonic_int", "harmonic", lambda c, n: c.harmonic(n), lambda n: harmonic_q(n),
     lambda rng, p: [rng.choice([rng.randint(1, 30), rng.randint(31, 400), rng.randint(401, 1500)])], w=1.0, regime="integer")
 reg("harmonic_half", "harmonic", lambda c, n: c.harmonic(M(c, Fraction(2 * n - 1, 2))), r_harmonic_half,
